@@ -141,7 +141,7 @@ theorem still_failing_fails (P : Params κ) (cfg : Cfg) (defs : Defs) (fuel : Na
 
 /-- hypotheses of the theorems above are satisfiable: a target with a check on a file that does not exist -/
 example : ∃ (t : Target) (fs : FS), ChecksOffOutputs t ∧ checksPass fs t.checks = false :=
-  ⟨{ label := [97], cmd := ⟨[], 0, [], []⟩, inputs := [], outs := [⟨false, [111]⟩], deps := [], hdeps := [], ldeps := [],
+  ⟨{ label := [97], cmd := ⟨[], 0, [], [], false⟩, inputs := [], outs := [⟨false, [111]⟩], deps := [], hdeps := [], ldeps := [],
      fp := [], plat := [], noCache := false, checks := [([102], none)] }, fun _ => none, by
     intro c hc; simp at hc; subst hc; simp, by simp [checksPass]⟩
 
@@ -153,7 +153,7 @@ theorem old_gate_witness :
       tryHit P cfg t 0 s = some s1 ∧ (∃ ts, s1.st t.label = some ts ∧ ts.ok = true) ∧ checksPass s1.fs t.checks = false := by
   refine ⟨{ K := fun _ => 0, run := fun _ _ => ⟨true, [], []⟩, fx := { Fixes.current with gateChecks := false } },
     ⟨true, false⟩,
-    { label := [97], cmd := ⟨[], 0, [], []⟩, inputs := [], outs := [], deps := [], hdeps := [], ldeps := [],
+    { label := [97], cmd := ⟨[], 0, [], [], false⟩, inputs := [], outs := [], deps := [], hdeps := [], ldeps := [],
       fp := [], plat := [], noCache := false, checks := [([102], none)] },
     { fs := fun _ => none, cache := { res := fun _ => some ⟨.self 0, []⟩, cas := fun _ => false, taint := fun _ => false },
       st := fun _ => none, log := [] }, ?_, rfl, ?_, ?_⟩
